@@ -71,6 +71,10 @@ def main(argv):
     finally:
         sh(["git", "-C", REPO, "checkout", "--", "."])
         sh(["git", "-C", REPO, "clean", "-fdq"])
+        # leave .work/ binaries consistent with the restored tree
+        sys.path.insert(0, HERE)
+        from seedverif import core
+        core.build(plain=True, verif=True)
     return 0
 
 
